@@ -186,8 +186,15 @@ class MarginRule(cssrule.CSSRule):
             # new style, set later so nothing is changed if it is refused
             newStyle = CSSStyleDeclaration(parentRule=self)
             if 'styletokens' in store:
+                # the white space between the tokens has been skipped, but
+                # it may separate (calc(1px + 2%)): put a blank between any two
+                styletokens = []
+                for t in store['styletokens']:
+                    if styletokens:
+                        styletokens.append(('S', ' ', t[2], t[3]))
+                    styletokens.append(t)
                 # may raise:
-                newStyle.cssText = store['styletokens']
+                newStyle.cssText = styletokens
 
             if 'margin' in store:
                 # may raise:
